@@ -829,9 +829,12 @@ func check() int {
 			budget = time.Duration(f * float64(time.Second))
 		}
 	}
-	hasRace := prop == "C12" || prop == "C13"
+	hasRace := prop == "C11" || prop == "C12" || prop == "C13" || prop == "C19"
 	if hasRace {
 		raceBudget = budget / 3
+		if prop == "C11" || prop == "C19" {
+			raceBudget = budget / 5
+		}
 		if v := os.Getenv("VERIF_RACE_BUDGET_S"); v != "" {
 			if f, err := strconv.ParseFloat(v, 64); err == nil {
 				raceBudget = time.Duration(f * float64(time.Second))
@@ -942,7 +945,9 @@ func check() int {
 					unmarshal(pb, &plan)
 					if cc := crashClass(stderr); cc == "harness-race" {
 						trouble++
-						fmt.Fprintf(os.Stderr, "data race inside the harness (no frame under the repository):\n%s\n", tailStr(stderr, 60))
+						if trouble <= 2 {
+							fmt.Fprintf(os.Stderr, "data race inside the harness (no frame under the repository):\n%s\n", tailStr(stderr, 40))
+						}
 					} else {
 						add(cc, plan, nil, stderr, c.Free)
 					}
